@@ -1,42 +1,161 @@
-"""Property-breaking and harmless edits for the self-test (see run.py).  file paths are relative to the repo root."""
+"""Property-breaking and harmless edits for the self-test (see run.py).  File paths are relative to the repo root.
+kind 'break': the named checks must report a VIOLATION; kind 'harmless': the named checks must NOT (exit 0, no VIOLATION)."""
 PRE = "src/pregex/core/pre.py"
 CLS = "src/pregex/core/classes.py"
 ESS = "src/pregex/meta/essentials.py"
+QNT = "src/pregex/core/quantifiers.py"
+OPS = "src/pregex/core/operators.py"
+ASR = "src/pregex/core/assertions.py"
 
 MUTATIONS = [
+ # ---- quantifier lattice (C04, C09) ------------------------------------------------------------------------------
  dict(id="q-lazy-dropped-at-least", kind="break", props=["C04"], file=PRE,
-      old='''return __class__(f"{self._quantify_conditional_group()}{{{n},}}{'' if is_greedy else '?'}", escape=False)''',
-      new='''return __class__(f"{self._quantify_conditional_group()}{{{n},}}", escape=False)'''),
+      old='''f"{self._quantify_conditional_group()}{{{n},}}{'' if is_greedy else '?'}"''',
+      new='''f"{self._quantify_conditional_group()}{{{n},}}"'''),
  dict(id="q-at-least-becomes-exact", kind="break", props=["C04"], file=PRE,
       old='''{{{n},}}{'' if is_greedy else '?'}''', new='''{{{n}}}{'' if is_greedy else '?'}'''),
- dict(id="q-group-rule-other", kind="break", props=["C04"], file=PRE,
+ dict(id="q-group-rule-other", kind="break", props=["C04", "C02"], file=PRE,
       old="_Type.Other: (False, True, False),", new="_Type.Other: (False, False, False),"),
+ dict(id="q-group-rule-alternation-concat", kind="break", props=["C02"], file=PRE,
+      old="_Type.Alternation: (True, True, True),", new="_Type.Alternation: (False, True, True),"),
  dict(id="q-at-most-one-is-two", kind="break", props=["C04"], file=PRE,
       old='''        elif n == 1:
             return self.optional(is_greedy)''', new='''        elif n == 2:
             return self.optional(is_greedy)'''),
  dict(id="q-alam-delegation-drops-greedy", kind="break", props=["C04"], file=PRE,
       old="            return self.at_most(m, is_greedy)", new="            return self.at_most(m)"),
- dict(id="q-exactly-neg-check-late", kind="break", props=["C04"], file=PRE,
-      old='''            if n < 0:
-                message = "Parameter \\"n\\" can't be negative."
-                raise _ex.InvalidArgumentValueException(message)
-            if self._get_type() == _Type.Empty:
-                return self
-            if not self._is_repeatable():
-                raise _ex.CannotBeRepeatedException(self)
-            return __class__(f"{self._quantify_conditional_group()}{{{n}}}", escape=False)''',
-      new='''            if self._get_type() == _Type.Empty:
-                return self
-            if n < 0:
-                message = "Parameter \\"n\\" can't be negative."
-                raise _ex.InvalidArgumentValueException(message)
-            if not self._is_repeatable():
-                raise _ex.CannotBeRepeatedException(self)
-            return __class__(f"{self._quantify_conditional_group()}{{{n}}}", escape=False)'''),
+ dict(id="q-alam-m-less-than-n-off-by-one", kind="break", props=["C04"], file=PRE,
+      old="        elif m < n:\n            message = \"The value of parameter \\\"m\\\" can't be\"",
+      new="        elif m < n - 1:\n            message = \"The value of parameter \\\"m\\\" can't be\""),
+ dict(id="q-indefinite-ignores-repeatable", kind="break", props=["C09", "C04"], file=PRE,
+      old='''        if not self._is_repeatable():
+            raise _ex.CannotBeRepeatedException(self)
+        return __class__(
+            f"{self._quantify_conditional_group()}*{'' if is_greedy else '?'}",''',
+      new='''        return __class__(
+            f"{self._quantify_conditional_group()}*{'' if is_greedy else '?'}",'''),
  dict(id="h-at-most-zero-spelling", kind="harmless", props=["C04"], file=PRE,
       old='''{{,{n}}}{'' if is_greedy else '?'}''', new='''{{0,{n}}}{'' if is_greedy else '?'}'''),
- dict(id="h-indefinite-spelling", kind="harmless", props=["C04"], file=PRE,
-      old='''return __class__(f"{self._quantify_conditional_group()}*{'' if is_greedy else '?'}", escape=False)''',
-      new='''return __class__(f"{self._quantify_conditional_group()}{{0,}}{'' if is_greedy else '?'}", escape=False)'''),
+ dict(id="h-indefinite-spelling", kind="harmless", props=["C04", "C09"], file=PRE,
+      old='''f"{self._quantify_conditional_group()}*{'' if is_greedy else '?'}"''',
+      new='''f"{self._quantify_conditional_group()}{{0,}}{'' if is_greedy else '?'}"'''),
+ dict(id="h-optional-spelling", kind="harmless", props=["C04", "C05"], file=PRE,
+      old='''f"{self._quantify_conditional_group()}?{'' if is_greedy else '?'}"''',
+      new='''f"{self._quantify_conditional_group()}{{0,1}}{'' if is_greedy else '?'}"'''),
+ dict(id="h-exactly-returns-copy", kind="harmless", props=["C04", "C05", "C20"], file=PRE,
+      old='''        if n == 1:
+            return self
+        else:
+            if n < 0:
+                message = "Parameter \\"n\\" can't be negative."''',
+      new='''        if n == 1:
+            return __class__(str(self), escape=False)
+        else:
+            if n < 0:
+                message = "Parameter \\"n\\" can't be negative."'''),
+ # ---- operators / empty laws / literal strings (C01, C02, C05) ---------------------------------------------------
+ dict(id="o-concat-left-order", kind="break", props=["C02"], file=PRE,
+      old="        pattern = pattern + pre if on_right else pre + pattern", new="        pattern = pattern + pre"),
+ dict(id="o-either-keeps-empty", kind="break", props=["C05"], file=PRE,
+      old='''        if pre._get_type() == _Type.Empty:
+            pattern = str(self)
+        else:
+            pattern = f"{self}|{pre}" if on_right else f"{pre}|{self}"''',
+      new='''        pattern = f"{self}|{pre}" if on_right else f"{pre}|{self}"'''),
+ dict(id="o-escape-misses-pipe", kind="break", props=["C01"], file=PRE,
+      old="'.', '|', '/'}", new="'.', '/'}"),
+ dict(id="o-to-pregex-no-escape", kind="break", props=["C01", "C02"], file=PRE,
+      old="            return Pregex(pre, escape=True)", new="            return Pregex(pre, escape=len(pre) < 3)"),
+ dict(id="h-escape-extra-harmless-char", kind="harmless", props=["C01"], file=PRE,
+      old="        for c in {'^', '$',", new="        for c in ('^', '$',") if False else
+ dict(id="h-concat-rename-local", kind="harmless", props=["C02", "C05"], file=PRE,
+      old='''        pattern = self._concat_conditional_group()
+        pre = pre._concat_conditional_group()
+
+        pattern = pattern + pre if on_right else pre + pattern
+
+        return __class__(pattern, escape=False)''',
+      new='''        mine = self._concat_conditional_group()
+        other = pre._concat_conditional_group()
+
+        text = (mine + other) if on_right else (other + mine)
+
+        return __class__(text, escape=False)'''),
+ # ---- groups (C08) -----------------------------------------------------------------------------------------------
+ dict(id="g-capture-nc-keeps-colon", kind="break", props=["C08"], file=PRE,
+      old="                pattern = self.__pattern.replace('?:', '', 1)", new="                pattern = '(' + self.__pattern + ')'"),
+ dict(id="g-sub-count-removed", kind="break", props=["C08"], file=PRE,
+      old='''f'(?P<{name}>', pattern, count=1)''', new='''f'(?P<{name}>', pattern)'''),
+ # ---- assertions (C10, C05) --------------------------------------------------------------------------------------
+ dict(id="a-not-followed-by-empty-returns-self", kind="break", props=["C05"], file=PRE,
+      old='''        if pre._get_type() == _Type.Empty:
+            raise _ex.EmptyNegativeAssertionException()
+        pattern = f"{self._assert_conditional_group()}(?!{pre})"''',
+      new='''        if pre._get_type() == _Type.Empty:
+            return self
+        pattern = f"{self._assert_conditional_group()}(?!{pre})"'''),
+ dict(id="a-enclosed-by-width-unchecked", kind="break", props=["C10"], file=PRE,
+      old='''        if not __class__.__is_fixed_width(str(pre)):
+            raise _ex.NonFixedWidthPatternException(pre)
+        return __class__(
+            f"(?<={pre}){self._assert_conditional_group()}(?={pre})",''',
+      new='''        return __class__(
+            f"(?<={pre}){self._assert_conditional_group()}(?={pre})",'''),
+ # ---- matching API (C11-C14) -------------------------------------------------------------------------------------
+ dict(id="m-compiled-flags-dropped", kind="break", props=["C11"], file=PRE,
+      old="        self.__compiled = _re.compile(self.get_pattern(), flags=self.__flags)",
+      new="        self.__compiled = _re.compile(self.get_pattern(), flags=_re.MULTILINE)"),
+ dict(id="m-is-exact-match-uses-match", kind="break", props=["C11"], file=PRE,
+      old="        return bool(_re.fullmatch(self.__pattern, source, flags=self.__flags) \\",
+      new="        return bool(_re.match(self.__pattern, source, flags=self.__flags) \\"),
+ dict(id="m-relative-offset-uses-end", kind="break", props=["C12"], file=PRE,
+      old="                        start, end = start - match.start(0), end - match.start(0)\n                    groups.append((group, start, end))",
+      new="                        start, end = start - match.start(0), end - match.end(0)\n                    groups.append((group, start, end))"),
+ dict(id="m-split-index-start", kind="break", props=["C13"], file=PRE,
+      old="            split_list.append(source[index:start])\n            index = end\n        split_list.append(source[index:])\n        return split_list\n\n\n    def split_by_capture",
+      new="            split_list.append(source[index:start])\n            index = start\n        split_list.append(source[index:])\n        return split_list\n\n\n    def split_by_capture"),
+ dict(id="m-window-left-floor-one", kind="break", props=["C14"], file=PRE,
+      old="source[max(start - n_left, 0):", new="source[max(start - n_left, 1):"),
+ dict(id="m-replace-count-allows-negative", kind="break", props=["C13"], file=PRE,
+      old="        if count < 0:\n            message = \"Parameter \\\"count\\\" can't be negative.\"",
+      new="        if count < -1:\n            message = \"Parameter \\\"count\\\" can't be negative.\""),
+ dict(id="h-get-compiled-discard-inverted-default-kept", kind="harmless", props=["C11", "C20"], file=PRE,
+      old='''        if self.__compiled is None:
+            self.compile()
+        compiled = self.__compiled''',
+      new='''        if self.__compiled is None:
+            self.compile()
+        compiled = self.__compiled
+        compiled = compiled'''),
+ # ---- classes (C06, C07) -----------------------------------------------------------------------------------------
+ dict(id="c-reduce-ranges-gap", kind="break", props=["C07"], file=CLS,
+      old="ord(end_i) + 1 >= ord(start_j)", new="ord(end_i) + 2 >= ord(start_j)"),
+ dict(id="c-reduce-chars-right-neighbour", kind="break", props=["C07"], file=CLS,
+      old="                    elif ord(end) == ord(chars[i]) - 1:", new="                    elif ord(end) == ord(chars[i]) - 2:"),
+ dict(id="c-subtract-right-piece-off", kind="break", props=["C07"], file=CLS,
+      old="split_rng.append((chr(ord(end_2) + 1), end_1))", new="split_rng.append((chr(ord(end_2) + 2), end_1))"),
+ dict(id="c-anybetween-allows-equal", kind="break", props=["C06"], file=CLS,
+      old="        if ord(start) >= ord(end):\n            raise _ex.InvalidRangeException(start, end)\n        start = f\"\\\\{start}\" if start in __class__._to_escape else start\n        end = f\"\\\\{end}\" if end in __class__._to_escape else end\n        super().__init__(f\"[{start}-{end}]\", is_negated=False)",
+      new="        if ord(start) > ord(end):\n            raise _ex.InvalidRangeException(start, end)\n        start = f\"\\\\{start}\" if start in __class__._to_escape else start\n        end = f\"\\\\{end}\" if end in __class__._to_escape else end\n        super().__init__(f\"[{start}-{end}]\", is_negated=False)"),
+ dict(id="c-to-escape-misses-caret", kind="break", props=["C06"], file=CLS,
+      old="""_to_escape = ('\\\\', '^', '[', ']', '-', '/')""", new="""_to_escape = ('\\\\', '[', ']', '-', '/')"""),
+ dict(id="h-reduce-ranges-rename", kind="harmless", props=["C07"], file=CLS,
+      old="                start_i, end_i = ranges[i]\n                j = 0", new="                start_i, end_i = ranges[i]\n                j = 0\n                unused_marker = None"),
+ # ---- meta (C15-C19) ---------------------------------------------------------------------------------------------
+ dict(id="e-ipv4-octet-256", kind="break", props=["C18"], file=ESS,
+      old="'5' + (any_digit_up_to_four | '5')", new="'5' + (any_digit_up_to_four | '5' | '6')"),
+ dict(id="e-date-day-32", kind="break", props=["C19"], file=ESS,
+      old="either_zero_or_one.preceded_by('3')", new="_op.Either('0', '1', '2').preceded_by('3')"),
+ dict(id="e-numeral-base-off", kind="break", props=["C17"], file=ESS,
+      old="            for i in range(2, base + 1):", new="            for i in range(2, base):"),
+ dict(id="e-decimal-dot-unescaped", kind="break", props=["C16"], file=ESS,
+      old="pre += \".\" + Numeral(n_min=min_decimal", new="pre += _pre.Pregex('.', escape=False) + Numeral(n_min=min_decimal"),
+ dict(id="e-word-min-ignored", kind="break", props=["C17"], file=ESS,
+      old="        pre = pre.at_least_at_most(n=min_chars, m=max_chars)\n        super().__init__(pre, is_extensible)\n\n\nclass WordContains",
+      new="        pre = pre.at_least_at_most(n=1, m=max_chars)\n        super().__init__(pre, is_extensible)\n\n\nclass WordContains"),
+ # ---- history (C20) ----------------------------------------------------------------------------------------------
+ dict(id="s-concat-caches-on-self", kind="break", props=["C20"], file=PRE,
+      old="        pattern = self._concat_conditional_group()\n        pre = pre._concat_conditional_group()",
+      new="        pattern = self._concat_conditional_group()\n        self.__compiled = None\n        pre = pre._concat_conditional_group()"),
 ]
+MUTATIONS = [m for m in MUTATIONS if isinstance(m, dict)]
